@@ -158,24 +158,30 @@ Proof.
   - rewrite Nat.min_r by exact G. rewrite !skipn_all2; [reflexivity|exact G|lia].
 Qed.
 
-Theorem read_loop_spec : forall fuel data pos n, 1 <= n -> length data - pos < fuel ->
-  exists cs, read_loop fuel data pos n = Some (cs, Nat.max pos (length data), S (length cs))
+Lemma next_size_bounds n sizes : 1 <= n -> 1 <= next_size n sizes <= n.
+Proof. intro Hn. unfold next_size. destruct sizes as [|s r]; lia. Qed.
+
+(* for EVERY read-size oracle: however short the reads of the stream are (1..n bytes while data
+   remains), the loop goes on until the empty read *)
+Theorem read_loop_spec : forall fuel data pos n sizes, 1 <= n -> length data - pos < fuel ->
+  exists cs, read_loop fuel data pos n sizes = Some (cs, Nat.max pos (length data), S (length cs))
              /\ Forall (fun c => c <> []) cs
              /\ Forall (fun c => length c <= n) cs
              /\ concat cs = skipn pos data.
 Proof.
-  induction fuel as [|f IH]; intros data pos n Hn Hf; [lia|].
+  induction fuel as [|f IH]; intros data pos n sizes Hn Hf; [lia|].
   cbn [read_loop]. unfold read_at.
-  destruct (firstn n (skipn pos data)) as [|x c'] eqn:E.
-  - apply (firstn_nil_inv _ _ Hn) in E.
+  pose proof (next_size_bounds n sizes Hn) as [Hk1 Hk2]. set (k := next_size n sizes) in *. clearbody k.
+  destruct (firstn k (skipn pos data)) as [|x c'] eqn:E.
+  - apply (firstn_nil_inv _ _ Hk1) in E.
     assert (L : length data <= pos).
     { pose proof (skipn_length pos data) as Hl. rewrite E in Hl. simpl in Hl. lia. }
     exists []. rewrite Nat.max_l by exact L. rewrite E. repeat split; constructor.
   - set (c := x :: c') in *.
-    assert (Hlen : length c = Nat.min n (length data - pos)).
+    assert (Hlen : length c = Nat.min k (length data - pos)).
     { rewrite <- E, firstn_length, skipn_length. reflexivity. }
     assert (Hpos : 1 <= length c) by (subst c; simpl; lia).
-    destruct (IH data (pos + length c) n Hn ltac:(lia)) as [cs [R [F1 [F2 Hc]]]].
+    destruct (IH data (pos + length c) n (tl sizes) Hn ltac:(lia)) as [cs [R [F1 [F2 Hc]]]].
     rewrite R. exists (c :: cs). repeat split.
     + f_equal. f_equal. f_equal. lia.
     + constructor; [subst c; discriminate|exact F1].
@@ -198,7 +204,8 @@ Definition after_read (k : skind) (w : world) (p r : nat) : world :=
   {| w_data := w_data w;
      w_pos := match k with KBytesIO => Nat.max p (length (w_data w)) | KFile => w_pos w end;
      w_reads := w_reads w + r;
-     w_heap := w_heap w |}.
+     w_heap := w_heap w;
+     w_sizes := skipn r (w_sizes w) |}.
 
 Theorem run_reader_ok k n sk w p : 1 <= n ->
   start_of k (length (w_data w)) (w_pos w) sk = Ok p ->
@@ -211,7 +218,7 @@ Proof.
            | Some (off, wh) => seek_pos k (length (w_data w)) off wh
            | None => Ok match k with KBytesIO => w_pos w | KFile => 0 end
            end) with (@Ok nat exn p).
-  destruct (read_loop_spec (length (w_data w) - p + 1) (w_data w) p n Hn ltac:(lia)) as [cs [R H]].
+  destruct (read_loop_spec (length (w_data w) - p + 1) (w_data w) p n (w_sizes w) Hn ltac:(lia)) as [cs [R H]].
   rewrite R. exists cs. split; [reflexivity|exact H].
 Qed.
 
@@ -259,23 +266,23 @@ Qed.
 
 Theorem reader_holds r : 1 <= r_chunk r -> spec_okb (IReader r) (model_reader r) = true.
 Proof.
-  intro Hn. destruct r as [k d0 p0 sk n b d1 p1]. simpl in Hn.
-  unfold model_reader, content_from_source, content_from_reader. cbn [r_kind r_data0 r_pos0 r_seek r_chunk r_buffer r_data1 r_pos1].
+  intro Hn. destruct r as [k d0 p0 sk n b d1 p1 sz]. simpl in Hn.
+  unfold model_reader, content_from_source, content_from_reader. cbn [r_kind r_data0 r_pos0 r_seek r_chunk r_buffer r_data1 r_pos1 r_sizes].
   destruct b.
   - (* buffer_now *)
     cbn [iter_src].
-    pose proof (run_reader_want k n sk (w_init d0 p0) Hn) as H. cbn [w_init w_data w_pos] in H.
-    cbn [spec_okb]. unfold reader_okb, want. cbn [r_kind r_data0 r_pos0 r_seek r_chunk r_buffer r_data1 r_pos1].
+    pose proof (run_reader_want k n sk (w_init d0 p0 sz) Hn) as H. cbn [w_init w_data w_pos] in H.
+    cbn [spec_okb]. unfold reader_okb, want. cbn [r_kind r_data0 r_pos0 r_seek r_chunk r_buffer r_data1 r_pos1 r_sizes].
     destruct (start_of k (length d0) p0 sk) as [p|e].
     + destruct H as [cs [R Hok]]. rewrite R. cbn [iter_bytes c_src iter_src set_source after_read w_reads w_init].
       rewrite Hok, chunks_eqb_refl, Nat.ltb_irrefl. reflexivity.
     + rewrite H. cbn. apply exn_eqb_refl.
   - (* lazy *)
     cbn [iter_bytes c_src iter_src w_init w_reads].
-    set (wc := {| w_data := d1; w_pos := p1; w_reads := 0; w_heap := [] |}).
-    change (set_source (w_init d0 p0) d1 p1) with wc. change (w_reads (w_init d0 p0)) with 0.
+    set (wc := {| w_data := d1; w_pos := p1; w_reads := 0; w_heap := []; w_sizes := sz |}).
+    change (set_source (w_init d0 p0 sz) d1 p1) with wc. change (w_reads (w_init d0 p0 sz)) with 0.
     pose proof (run_reader_want k n sk wc Hn) as H. cbn [wc w_data w_pos] in H.
-    cbn [spec_okb]. unfold reader_okb, want. cbn [r_kind r_data0 r_pos0 r_seek r_chunk r_buffer r_data1 r_pos1].
+    cbn [spec_okb]. unfold reader_okb, want. cbn [r_kind r_data0 r_pos0 r_seek r_chunk r_buffer r_data1 r_pos1 r_sizes].
     destruct (start_of k (length d1) p1 sk) as [p|e] eqn:E.
     + destruct H as [cs [R Hok]]. rewrite R.
       set (wd := after_read k wc p (S (length cs))).
@@ -292,11 +299,11 @@ Proof. unfold chunks_okb. intro H. apply andb_true_iff in H as [_ H]. exact H. Q
 
 Theorem snap_holds r : 1 <= r_chunk r -> spec_okb (ISnap r) (model_snap r) = true.
 Proof.
-  intro Hn. destruct r as [k d0 p0 sk n b d1 p1]. simpl in Hn.
+  intro Hn. destruct r as [k d0 p0 sk n b d1 p1 sz]. simpl in Hn.
   unfold model_snap, content_from_source, content_from_reader, copy_content.
-  cbn [r_kind r_data0 r_pos0 r_seek r_chunk r_buffer r_data1 r_pos1 iter_bytes c_src c_type iter_src].
-  pose proof (run_reader_want k n sk (w_init d0 p0) Hn) as H. cbn [w_init w_data w_pos] in H.
-  cbn [spec_okb]. unfold snap_okb, want. cbn [r_kind r_data0 r_pos0 r_seek r_chunk r_buffer r_data1 r_pos1].
+  cbn [r_kind r_data0 r_pos0 r_seek r_chunk r_buffer r_data1 r_pos1 r_sizes iter_bytes c_src c_type iter_src].
+  pose proof (run_reader_want k n sk (w_init d0 p0 sz) Hn) as H. cbn [w_init w_data w_pos] in H.
+  cbn [spec_okb]. unfold snap_okb, want. cbn [r_kind r_data0 r_pos0 r_seek r_chunk r_buffer r_data1 r_pos1 r_sizes].
   destruct (start_of k (length d0) p0 sk) as [p|e].
   - destruct H as [cs [R Hok]]. rewrite R.
     cbn [alloc after_read w_init w_heap w_data w_pos w_reads app length set_source iter_bytes c_src c_type iter_src heap_get nth].
@@ -817,10 +824,150 @@ Proof.
   - destruct (wf_ct_unpack ct Hwf) as [_ [_ [Hnd _]]]. exact Hnd.
 Qed.
 
+(* ================= 7b. several readers of one content ================= *)
+Section Readers.
+  Variable C : codec.
+
+  Lemma ti_step_ended it : ti_end it <> None -> ti_step C it = it.
+  Proof. unfold ti_step. destruct (ti_end it); [reflexivity|congruence]. Qed.
+
+  Lemma ti_run_ended k it : ti_end it <> None -> ti_run C k it = it.
+  Proof. induction k as [|k IH]; intro H; [reflexivity|]. cbn [ti_run]. rewrite (ti_step_ended it H). exact (IH H). Qed.
+
+  (* draining a suspended reader is the rest of the generator loop *)
+  Lemma ti_finish_running : forall rest dec acc,
+    let it := {| ti_dec := dec; ti_rest := rest; ti_acc := acc; ti_end := None |} in
+    ti_result C (ti_finish C it)
+    = match iter_text_loop C dec rest with
+      | None => Raised UnicodeDecodeError
+      | Some pieces => Ok (acc ++ concat pieces)
+      end
+    /\ ti_end (ti_finish C it) <> None.
+  Proof.
+    induction rest as [|c r IH]; intros dec acc it; subst it.
+    - unfold ti_finish. cbn [ti_rest length].
+      change (ti_run C 1 ?x) with (ti_step C x).
+      unfold ti_step. cbn [ti_end ti_rest ti_dec ti_acc iter_text_loop].
+      destruct (flush C dec) as [fin|] eqn:E.
+      + rewrite (flush_nil C dec fin E). cbn [ti_result ti_end ti_acc]. split; [|discriminate].
+        reflexivity.
+      + cbn [ti_result ti_end]. split; [reflexivity|discriminate].
+    - unfold ti_finish. cbn [ti_rest length].
+      change (ti_run C (S (S (length r))) ?x) with (ti_run C (S (length r)) (ti_step C x)).
+      unfold ti_step. cbn [ti_end ti_rest ti_dec ti_acc iter_text_loop].
+      destruct (feed C dec c) as [[s' out]|].
+      + specialize (IH s' (acc ++ out)). cbn zeta in IH. unfold ti_finish in IH. cbn [ti_rest] in IH.
+        destruct IH as [IH1 IH2]. split; [|exact IH2]. rewrite IH1.
+        destruct (iter_text_loop C s' r) as [pieces|]; [|reflexivity].
+        cbn [concat]. rewrite app_assoc. reflexivity.
+      + rewrite ti_run_ended by (cbn [ti_end]; discriminate). cbn [ti_result ti_end]. split; [reflexivity|discriminate].
+  Qed.
+
+  Lemma ti_finish_ended it : ti_end (ti_finish C it) <> None.
+  Proof.
+    destruct it as [dec rest acc [e|]].
+    - unfold ti_finish. rewrite ti_run_ended; cbn [ti_end]; discriminate.
+    - apply (ti_finish_running rest dec acc).
+  Qed.
+
+  (* a next() in between does not change what the reader will have collected at the end *)
+  Lemma ti_finish_step it : ti_finish C (ti_step C it) = ti_finish C it.
+  Proof.
+    destruct it as [dec rest acc [e|]].
+    - rewrite ti_step_ended by (cbn [ti_end]; discriminate). reflexivity.
+    - destruct rest as [|c r].
+      + unfold ti_finish at 2. cbn [ti_rest length ti_run].
+        assert (H : ti_end (ti_step C {| ti_dec := dec; ti_rest := []; ti_acc := acc; ti_end := None |}) <> None).
+        { unfold ti_step. cbn [ti_end ti_rest ti_dec]. destruct (flush C dec); cbn [ti_end]; discriminate. }
+        unfold ti_finish. apply ti_run_ended. exact H.
+      + unfold ti_finish at 2. cbn [ti_rest length ti_run].
+        unfold ti_step. cbn [ti_end ti_rest ti_dec ti_acc].
+        destruct (feed C dec c) as [[s' out]|].
+        * reflexivity.
+        * unfold ti_finish. rewrite !ti_run_ended by (cbn [ti_end]; discriminate). reflexivity.
+  Qed.
+
+  Lemma ti_finish_idem it : ti_finish C (ti_finish C it) = ti_finish C it.
+  Proof. unfold ti_finish at 1. apply ti_run_ended. apply ti_finish_ended. Qed.
+
+  (* a new reader drained = as_text() = the whole-string decode *)
+  Lemma ti_fresh_result chunks : ti_result C (ti_finish C (ti_fresh C chunks)) = whole C (concat chunks).
+  Proof.
+    unfold ti_fresh. rewrite (proj1 (ti_finish_running chunks (dinit C) [])). cbn [app]. apply iter_text_whole.
+  Qed.
+End Readers.
+
+Lemma upd_length {A} (x : A) : forall l i, length (upd i x l) = length l.
+Proof. induction l as [|y l IH]; intros [|i]; simpl; try reflexivity. rewrite IH. reflexivity. Qed.
+
+Lemma Forall_upd {A} (P : A -> Prop) (x : A) : forall l i, Forall P l -> P x -> Forall P (upd i x l).
+Proof.
+  induction l as [|y l IH]; intros [|i] H Hx; simpl; try exact H; inversion H; subst; constructor; auto.
+Qed.
+
+Lemma Forall_nth_error {A} (P : A -> Prop) l i (x : A) : Forall P l -> nth_error l i = Some x -> P x.
+Proof. intros H E. rewrite Forall_forall in H. apply H. exact (nth_error_In _ _ E). Qed.
+
+(* the invariant argument, for any kind of reader: if every reader that exists "will end right" (P), a new reader
+   does, and next()/draining keep it so, then in EVERY history every complete read is right - the operations on the
+   other readers never touch it *)
+Lemma hist_meets (I : Type) (fresh : option I) (step finish : I -> I) (result : I -> tres) (astext : tres)
+                 (text : bool) (ok : tres -> bool) (P : I -> Prop) :
+  (forall f, fresh = Some f -> P f) -> (fresh = None -> text = false) ->
+  (forall it, P it -> P (step it)) -> (forall it, P it -> P (finish it)) ->
+  (forall it, P it -> ok (result (finish it)) = true) -> ok astext = true ->
+  forall ops its, Forall P its ->
+    hist_okb text ok (length its) ops (hist I fresh step finish result astext its ops) = true.
+Proof.
+  intros Hfresh Hnone Hstep Hfin Hres Has.
+  induction ops as [|op ops IH]; intros its HP; [reflexivity|].
+  destruct op as [|i|i|]; cbn [hist].
+  - destruct fresh as [f|] eqn:E.
+    + cbn [hist_okb]. replace (S (length its)) with (length (its ++ [f])) by (rewrite app_length; simpl; lia).
+      apply IH. apply Forall_app. split; [exact HP|]. constructor; [apply Hfresh; reflexivity|constructor].
+    + cbn [hist_okb]. assert (Ht : negb text = true) by (rewrite (Hnone eq_refl); reflexivity).
+      rewrite Ht. cbn [andb]. apply IH. exact HP.
+  - destruct (nth_error its i) as [it|] eqn:E; cbn [hist_okb].
+    + assert (L : i < length its) by (apply nth_error_Some; congruence).
+      apply Nat.ltb_lt in L. rewrite L. cbn [andb]. rewrite <- (upd_length (step it) its i).
+      apply IH. apply Forall_upd; [exact HP|]. apply Hstep. exact (Forall_nth_error P its i it HP E).
+    + apply nth_error_None in E. apply Nat.leb_le in E. rewrite E. cbn [andb]. apply IH. exact HP.
+  - destruct (nth_error its i) as [it|] eqn:E; cbn [hist_okb].
+    + assert (L : i < length its) by (apply nth_error_Some; congruence).
+      pose proof (Forall_nth_error P its i it HP E) as Hit.
+      apply Nat.ltb_lt in L. rewrite L, (Hres it Hit). cbn [andb]. rewrite <- (upd_length (finish it) its i).
+      apply IH. apply Forall_upd; [exact HP|]. apply Hfin. exact Hit.
+    + apply nth_error_None in E. apply Nat.leb_le in E. rewrite E. cbn [andb]. apply IH. exact HP.
+  - cbn [hist_okb]. rewrite Has. cbn [andb]. apply IH. exact HP.
+Qed.
+
+Theorem hist_holds ct chunks oracle ops : spec_okb (IHist ct chunks oracle ops) (model (IHist ct chunks oracle ops)) = true.
+Proof.
+  cbn [spec_okb model]. unfold read_history.
+  destruct (str_eqb (ct_type ct) (sb "text")) eqn:Et; cbn [negb].
+  - destruct (codec_of (declared_charset ct)) as [C|] eqn:EC.
+    + apply (hist_meets (titer C) _ _ _ _ _ true _ (fun it => ti_result C (ti_finish C it) = whole C (concat chunks))
+               ) with (its := []).
+      * intros f E. injection E as <-. apply ti_fresh_result.
+      * discriminate.
+      * intros it H. rewrite ti_finish_step. exact H.
+      * intros it H. rewrite ti_finish_idem. exact H.
+      * intros it H. unfold read_okb. rewrite Et, EC, H. apply tres_eqb_refl.
+      * unfold read_okb. rewrite Et, EC, ti_fresh_result. apply tres_eqb_refl.
+      * constructor.
+    + apply (hist_meets unit _ _ _ _ _ true _ (fun _ => True)) with (its := []); auto.
+      * discriminate.
+      * intros _ _. unfold read_okb. rewrite Et, EC. destruct oracle; [apply tres_eqb_refl|reflexivity].
+      * unfold read_okb. rewrite Et, EC. destruct oracle; [apply tres_eqb_refl|reflexivity].
+  - apply (hist_meets unit _ _ _ _ _ false _ (fun _ => True)) with (its := []); auto.
+    + intros _ _. unfold read_okb. rewrite Et. reflexivity.
+    + unfold read_okb. rewrite Et. reflexivity.
+Qed.
+
 (* ================= 8. the model meets the statement ================= *)
 Theorem model_meets_spec i : wf i = true -> finding_F16 i = false -> spec_okb i (model i) = true.
 Proof.
-  destruct i as [s|d|ct chunks|cs data|r|r|r|b r|ta ca tb cb|ct]; intros Hwf Hf.
+  destruct i as [s|d|ct chunks|cs data|r|r|r|b r|ta ca tb cb|ct|ct chunks oracle ops]; intros Hwf Hf.
   - (* text_content *)
     cbn [spec_okb model]. simpl in Hwf.
     rewrite (text_roundtrip s w0 Hwf). cbn [fst]. rewrite tres_eqb_refl. cbn [andb].
@@ -841,6 +988,7 @@ Proof.
   - apply readerlist_holds.
   - cbn [spec_okb model]. rewrite content_eq_stored. cbn [fst]. rewrite !eqb_reflx. reflexivity.
   - apply mime_holds. simpl in Hf. apply negb_false_iff. exact Hf.
+  - apply hist_holds.
 Qed.
 
 Theorem refuted_F16 : exists i, wf i = true /\ finding_F16 i = true /\ spec_okb i (model i) = false.
@@ -893,9 +1041,43 @@ Proof.
   unfold ct_eqb, CtSame. rewrite !andb_true_iff, !str_eqb_spec, dict_eqb_iff. tauto.
 Qed.
 
+Lemma read_okb_sound ct bs oracle t : read_okb ct bs oracle t = true -> ReadOk ct bs oracle t.
+Proof.
+  unfold read_okb, ReadOk. intros H Ht. apply str_eqb_spec in Ht. rewrite Ht in H.
+  destruct (codec_of (declared_charset ct)) as [C|].
+  - apply tres_eqb_spec. exact H.
+  - intros e ->. apply tres_eqb_spec. exact H.
+Qed.
+
+Lemma hist_okb_sound text ok : forall ops rs n, hist_okb text ok n ops rs = true ->
+  length rs = length ops
+  /\ (forall k, nth_error ops k = Some HAsText -> exists t, nth_error rs k = Some (RRead t))
+  /\ (forall k t, nth_error rs k = Some (RRead t) -> ok t = true).
+Proof.
+  induction ops as [|op ops IH]; intros rs n H.
+  - destruct rs; [|discriminate]. split; [reflexivity|]. split; [intros [|k] E; discriminate|intros [|k] t E; discriminate].
+  - destruct rs as [|r rs]; [destruct op; discriminate|].
+    assert (X : exists n', hist_okb text ok n' ops rs = true
+                           /\ (op = HAsText -> exists t, r = RRead t) /\ (forall t, r = RRead t -> ok t = true)).
+    { destruct op as [|i|i|]; destruct r as [e| | |t0]; cbn [hist_okb] in H; try discriminate;
+        try (destruct e);
+        repeat match goal with Hc : _ && _ = true |- _ => apply andb_true_iff in Hc as [? ?] end;
+        eexists; (split; [eassumption|]);
+        (split; [try discriminate; intros _; eexists; reflexivity
+                |intros t' E; try discriminate; injection E as <-; assumption]). }
+    destruct X as [n' [H' [Ha Hr]]]. destruct (IH rs n' H') as [L [A R]].
+    split; [simpl; f_equal; exact L|]. split.
+    + intros [|k] Hk; simpl in *.
+      * injection Hk as ->. destruct (Ha eq_refl) as [t ->]. eexists; reflexivity.
+      * apply A. exact Hk.
+    + intros [|k] t Hk; simpl in *.
+      * injection Hk as ->. apply Hr. reflexivity.
+      * exact (R k t Hk).
+Qed.
+
 Theorem spec_okb_sound i o : spec_okb i o = true -> Spec i o.
 Proof.
-  destruct i as [s|d|ct chunks|cs data|r|r|r|bf r|ta ca tb cb|ct], o as [ct' b t|ct' b|b t|runs|cr rc i1 r1 i2 r2|cp sm c1 c2 ra og|sm c1 c2 og|i1 i2|e ne|echo res];
+  destruct i as [s|d|ct chunks|cs data|r|r|r|bf r|ta ca tb cb|ct|ct chunks oracle ops], o as [ct' b t|ct' b|b t|runs|cr rc i1 r1 i2 r2|cp sm c1 c2 ra og|sm c1 c2 og|i1 i2|e ne|echo res|rs];
     cbn [spec_okb Spec]; try discriminate; intro H.
   - apply andb_true_iff in H as [H1 H2]. split; [apply tres_eqb_spec; exact H1|apply text_okb_sound; exact H2].
   - apply tres_eqb_spec. exact H.
@@ -935,6 +1117,9 @@ Proof.
   - (* mime *)
     apply andb_true_iff in H as [H0 H]. apply ctype_eqb_spec in H0. split; [exact H0|].
     destruct res as [c|]; [|discriminate]. exists c. split; [reflexivity|apply ct_eqb_iff; exact H].
+  - (* histories *)
+    destruct (hist_okb_sound _ _ _ _ _ H) as [L [A R]]. unfold HistSpec. split; [exact L|]. split; [exact A|].
+    intros k t Hk. apply read_okb_sound. exact (R k t Hk).
 Qed.
 
 (* ================= 10. the comparison is exact on what it compares ================= *)
@@ -955,11 +1140,22 @@ Lemma oexn_eqb_spec (a b : option exn) : option_eqb exn_eqb a b = true <-> a = b
 Proof. apply option_eqb_spec. apply exn_eqb_spec. Qed.
 
 
+Lemma hres_eqb_spec a b : hres_eqb a b = true <-> a = b.
+Proof.
+  destruct a as [e| | |t], b as [f| | |u]; cbn [hres_eqb]; try (split; [discriminate|discriminate]);
+    try (split; reflexivity).
+  - rewrite oexn_eqb_spec. split; congruence.
+  - rewrite tres_eqb_spec. split; congruence.
+Qed.
+
+Lemma hlist_eqb_spec (a b : list hres) : list_eqb hres_eqb a b = true <-> a = b.
+Proof. apply list_eqb_spec. apply hres_eqb_spec. Qed.
+
 Theorem obs_eqb_spec a b : obs_eqb a b = true <-> alpha a = alpha b.
 Proof.
   destruct a, b; cbn [obs_eqb alpha]; try (split; [discriminate|discriminate]);
     rewrite ?andb_true_iff, ?ctype_eqb_spec, ?bytes_eqb_spec, ?tres_eqb_spec, ?runs_eqb_spec, ?oexn_eqb_spec,
-            ?bool_eqb_spec, ?bres_eqb_spec;
+            ?bool_eqb_spec, ?bres_eqb_spec, ?hlist_eqb_spec;
     (split; [intro H; decompose [and] H; congruence | intro E; injection E; intros; subst; repeat split; assumption]).
 Qed.
 
@@ -1067,7 +1263,7 @@ Proof.
             | Some (off, wh) => seek_pos k (length (w_data w)) off wh
             | None => Ok match k with KBytesIO => w_pos w | KFile => 0 end
             end) as [p|e]; [|reflexivity].
-  destruct (read_loop (length (w_data w) - p + 1) (w_data w) p n) as [[[cs p'] r]|]; reflexivity.
+  destruct (read_loop (length (w_data w) - p + 1) (w_data w) p n (w_sizes w)) as [[[cs p'] r]|]; reflexivity.
 Qed.
 
 Lemma heap_get_alloc h v : heap_get (length h) (h ++ [v]) = v.
@@ -1098,12 +1294,13 @@ Qed.
    change of the stream/file, reaches the copy *)
 Theorem snapshot_unaffected c w cp w1 cs w' : copy_content c w = (Ok cp, w1) -> iter_bytes c w = (Ok cs, w') ->
   forall writes : list (loc * list chunk), Forall (fun lv => fst lv < length (w_heap w)) writes ->
-  forall d p r,
+  forall d p r sz,
     let w2 := {| w_data := d; w_pos := p; w_reads := r;
-                 w_heap := fold_left (fun h lv => heap_set (fst lv) (snd lv) h) writes (w_heap w1) |} in
+                 w_heap := fold_left (fun h lv => heap_set (fst lv) (snd lv) h) writes (w_heap w1);
+                 w_sizes := sz |} in
     iter_bytes cp w2 = (Ok cs, w2).
 Proof.
-  intros Hc Hi writes Hw d p r w2.
+  intros Hc Hi writes Hw d p r sz w2.
   destruct (snapshot c w cp w1 Hc) as [_ [cs0 [w0 [Hi0 [Hsrc [Hheap Hget]]]]]].
   rewrite Hi in Hi0. injection Hi0 as <- <-.
   apply Hget. subst w2. cbn [w_heap]. rewrite Hheap.
@@ -1154,4 +1351,37 @@ Proof.
       * exists ((z :: c0'') :: t). split.
         -- apply IH; [constructor; [discriminate|exact Ht]|exact E].
         -- left. reflexivity.
+Qed.
+
+(* C16_history: every complete read in every history, straight on the model *)
+Theorem history_reads C ct chunks oracle ops k t :
+  ct_type ct = sb "text" -> codec_of (declared_charset ct) = Some C ->
+  nth_error (read_history ct chunks oracle ops) k = Some (RRead t) -> t = whole C (concat chunks).
+Proof.
+  intros Ht HC Hk. pose proof (hist_holds ct chunks oracle ops) as H. apply spec_okb_sound in H.
+  cbn [Spec model] in H. destruct H as [_ [_ R]]. specialize (R k t Hk Ht). rewrite HC in R. exact R.
+Qed.
+
+Theorem history_answers ct chunks oracle ops :
+  length (read_history ct chunks oracle ops) = length ops
+  /\ forall k, nth_error ops k = Some HAsText -> exists t, nth_error (read_history ct chunks oracle ops) k = Some (RRead t).
+Proof.
+  pose proof (hist_holds ct chunks oracle ops) as H. apply spec_okb_sound in H.
+  cbn [Spec model] in H. destruct H as [L [A _]]. split; assumption.
+Qed.
+
+Lemma upd_other {A} (x : A) : forall l i j, i <> j -> nth_error (upd j x l) i = nth_error l i.
+Proof.
+  induction l as [|y l IH]; intros [|i] [|j] H; simpl; try reflexivity; try congruence. apply IH. congruence.
+Qed.
+
+(* C16_readers_independent *)
+Theorem readers_independent C :
+  (forall chunks, ti_result C (ti_finish C (ti_fresh C chunks)) = whole C (concat chunks))
+  /\ (forall it, ti_finish C (ti_step C it) = ti_finish C it)
+  /\ (forall it, ti_finish C (ti_finish C it) = ti_finish C it)
+  /\ (forall (its : list (titer C)) i j x, i <> j -> nth_error (upd j x its) i = nth_error its i).
+Proof.
+  split; [apply ti_fresh_result|]. split; [apply ti_finish_step|]. split; [apply ti_finish_idem|].
+  intros its i j x H. apply upd_other. exact H.
 Qed.
